@@ -23,8 +23,8 @@ CONSTS = {"quick": {"MaxLen": 5, "MaxLen2": 3, "MaxPair": 3, "MaxA2": 4},
 # about the specification, every replayed event is judged by the same operators anyway)
 MC_CONSTS = {"quick": {"MaxLen": 4, "MaxLen2": 3, "MaxPair": 3, "MaxA2": 3},
              "thorough": {"MaxLen": 6, "MaxLen2": 3, "MaxPair": 4, "MaxA2": 5}}
-NFILES = {"quick": 6, "thorough": 30}
-TLC_SLOTS = threading.BoundedSemaphore(12)      # trace validators running side by side (both impls)
+NFILES = {"quick": 12, "thorough": 60}      # 50-80k events per trace file keep one validator below ~1 GB
+TLC_SLOTS = threading.BoundedSemaphore(8)       # trace validators running side by side (both impls)
 
 # (algorithm, category) instantiations the standard requires but the tree may not compile:
 # probed on every run; enabled in the driver (-DVH_OK_<fn>_<policy>) as soon as they compile
@@ -35,7 +35,7 @@ SUSPECTS = [("search_n", "P_fwd"), ("search_n", "P_ra"), ("inplace_merge", "P_bi
 def model(tier, out):
     c = {k: str(v) for k, v in MC_CONSTS[tier].items()}
     c["ExportLen"] = str(CONSTS[tier]["MaxLen"])
-    out["mc"] = vlib.tlc_mc("Algo.tla", "Algo.cfg", "algo_mc_" + tier, workers=6, constants=c, heap="6g", timeout=3000)
+    out["mc"] = vlib.tlc_mc("Algo.tla", "Algo.cfg", "algo_mc_" + tier, workers=6, constants=c, heap="3g", timeout=3000)
 
 
 def probe(fn, pol):
@@ -149,7 +149,7 @@ def pipeline(tier, rep, calibrate=True):
         missing = [g for g in want if g not in groups]
         if missing:
             raise vlib.ModelFailure("algo driver (%s) did not run groups %s" % (impl, missing[:5]))
-        tv = validate(traces, "AlgoTrace_%s.cfg" % tier, "algo_tv_%s_%s" % (impl, tier), "2500m" if tier == "quick" else "3500m")
+        tv = validate(traces, "AlgoTrace_%s.cfg" % tier, "algo_tv_%s_%s" % (impl, tier), "1500m" if tier == "quick" else "2g")
         res[impl] = (tv, groups)
     impls = ["etl", "std"] if calibrate else ["etl"]
     with ThreadPoolExecutor(max_workers=2) as ex:
